@@ -21,6 +21,8 @@ class C17(Check):
     pid = "C17"
     title = "SBML import builds the model the document describes"
     rules = {
+        "U9": "(shared with C01) what the imported model returns as derivatives is stoichiometry x rates at the queried state, computed coefficients "
+              "(compartment sizes, rule-defined stoichiometries) included - every right-hand-side entry point, pandas variants too (A1, A5, A10 of C01)",
         "U7": "(shared with C11) the generator the import writes its module with keeps one injective definition table (K1 of C11)",
         "U1": "the generated module's file path and sys.modules key depend on an injective function of the input document (its "
               "resolved path and/or content digest), not only on lossy derivatives such as the file stem",
@@ -34,7 +36,7 @@ class C17(Check):
               "document is stored into the symbolic model under its own key on every path of the loop that walks it",
         "U5": "the generated source is written before it is imported, and the model is built from exactly that module",
     }
-    floors = {"U7": 5, "U1": 2, "U2": 4, "U3": 2, "U4": 1, "U5": 2, "U6": 1, "U8": 4}
+    floors = {"U9": 10, "U7": 5, "U1": 2, "U2": 4, "U3": 2, "U4": 1, "U5": 2, "U6": 1, "U8": 4}
     decided = [
         "two documents read in one session (same stem, different directory or content) get different generated modules",
         "generated functions are called with the arguments they were defined with",
@@ -84,6 +86,7 @@ class C17(Check):
         rd = mod.func("read")
         self.u8(mod)
         self.borrow("C11", ("K1",), "U7")
+        self.borrow("C01", ("A1", "A5", "A10"), "U9")
         # ---- U1: what does the module name depend on?
         di = DepInterp()
         st = DepSt().set("file", frozenset({"file"}))
